@@ -9,7 +9,7 @@ namespace ExprModel.Refine
 open ExprModel
 open ExprModel.Spec
 
-variable {c : Cfg} {P : Prog} {ctx : Ctx}
+variable {c : Cfg} {P : LProg} {ctx : Ctx}
 
 theorem sim_nil (m : Meta) : Sim c P ctx (.nil m) [li m.loc .nil_] := by
   intro k st scs σ r σ' hcode hsc hev
@@ -34,15 +34,17 @@ theorem sim_push {n : Node} {l : Loc} {kk : Nat} {v : Val} (hk : P.consts[kk]? =
   exact Runs.push hcode hk (Reach.refl _ |>.to_ip (by ip_arith))
 
 theorem sim_unary_not {m : Meta} {op : String} {x : Node} {cx : List LInstr} (hx : Sim c P ctx x cx)
-    (hop : (op == "!" || op == "not") = true) : Sim c P ctx (.unary m op x) (cx ++ [li m.loc .not_]) := by
+    (hop : (op == "!" || op == "not") = true) (hbl : BlameOK c P (.unary m op x)) :
+    Sim c P ctx (.unary m op x) (cx ++ [li m.loc .not_]) := by
   intro k st scs σ r σ' hcode hsc hev
+  have hev0 := hev
   rw [eval_unary] at hev
   rcases SM.bind_cases hev with ⟨e, hxe, rfl⟩ | ⟨v, σ1, hxv, hrest⟩
   · exact hx k st scs σ _ _ hcode.left hsc hxe
   · refine Reach.runs (hx k st scs σ _ _ hcode.left hsc hxv) ?_
     simp only [hop, if_true, SM.lift_apply] at hrest
     obtain ⟨rfl, rfl⟩ := Prod.mk.inj hrest
-    exact (Runs.not_ hcode.right).to_ip (by ip_arith)
+    exact (Runs.not_ hcode.right (hbl.of hev0)).to_ip (by ip_arith)
 
 theorem sim_unary_plus {m : Meta} {op : String} {x : Node} {cx : List LInstr} (hx : Sim c P ctx x cx)
     (hop : (op == "+") = true) : Sim c P ctx (.unary m op x) cx := by
@@ -59,8 +61,10 @@ theorem sim_unary_plus {m : Meta} {op : String} {x : Node} {cx : List LInstr} (h
     exact hx k st scs σ _ _ hcode hsc hxv
 
 theorem sim_unary_minus {m : Meta} {op : String} {x : Node} {cx : List LInstr} (hx : Sim c P ctx x cx)
-    (hop : (op == "-") = true) : Sim c P ctx (.unary m op x) (cx ++ [li m.loc .negate]) := by
+    (hop : (op == "-") = true) (hbl : BlameOK c P (.unary m op x)) :
+    Sim c P ctx (.unary m op x) (cx ++ [li m.loc .negate]) := by
   intro k st scs σ r σ' hcode hsc hev
+  have hev0 := hev
   have : op = "-" := by simpa using hop
   subst this
   rw [eval_unary] at hev
@@ -70,16 +74,18 @@ theorem sim_unary_minus {m : Meta} {op : String} {x : Node} {cx : List LInstr} (
     have h1 : ("-" == "!" || "-" == "not") = false := by decide
     simp only [h1, Bool.false_eq_true, if_false, BEq.rfl, if_true, SM.lift_apply] at hrest
     obtain ⟨rfl, rfl⟩ := Prod.mk.inj hrest
-    exact (Runs.negate hcode.right).to_ip (by ip_arith)
+    exact (Runs.negate hcode.right (hbl.of hev0)).to_ip (by ip_arith)
 
-theorem sim_ident_fetch {m : Meta} {name : String} {nilsafe : Bool} {kk : Nat} (hk : P.consts[kk]? = some (.str name)) :
+theorem sim_ident_fetch {m : Meta} {name : String} {nilsafe : Bool} {kk : Nat} (hk : P.consts[kk]? = some (.str name))
+    (hbl : BlameOK c P (.ident m name nilsafe)) :
     Sim c P ctx (.ident m name nilsafe) [li m.loc (if nilsafe then .fetchNilSafe else .fetch) kk] := by
   intro k st scs σ r σ' hcode hsc hev
+  have hev0 := hev
   rw [eval_ident, SM.lift_apply] at hev
   obtain ⟨rfl, rfl⟩ := Prod.mk.inj hev
   cases nilsafe
-  · exact (Runs.fetch hcode hk).to_ip (by ip_arith)
-  · exact (Runs.fetchNilSafe hcode hk).to_ip (by ip_arith)
+  · exact (Runs.fetch hcode hk (hbl.of hev0)).to_ip (by ip_arith)
+  · exact (Runs.fetchNilSafe hcode hk (hbl.of hev0)).to_ip (by ip_arith)
 
 theorem sim_ident_map {m : Meta} {name : String} {nilsafe : Bool} {kk : Nat} {kvs : List (String × Val)}
     (hk : P.consts[kk]? = some (.str name)) (henv : c.env = .map kvs) :
@@ -94,9 +100,10 @@ theorem sim_ident_map {m : Meta} {name : String} {nilsafe : Bool} {kk : Nat} {kv
   exact Runs.fetchMap hcode hk henv (Reach.refl _ |>.to_ip (by ip_arith))
 
 theorem sim_prop {m : Meta} {x : Node} {name : String} {nilsafe : Bool} {cx : List LInstr} {kk : Nat}
-    (hx : Sim c P ctx x cx) (hk : P.consts[kk]? = some (.str name)) :
+    (hx : Sim c P ctx x cx) (hk : P.consts[kk]? = some (.str name)) (hbl : BlameOK c P (.prop m x name nilsafe)) :
     Sim c P ctx (.prop m x name nilsafe) (cx ++ [li m.loc (if nilsafe then .propertyNilSafe else .property) kk]) := by
   intro k st scs σ r σ' hcode hsc hev
+  have hev0 := hev
   rw [eval_prop] at hev
   rcases SM.bind_cases hev with ⟨e, hxe, rfl⟩ | ⟨v, σ1, hxv, hrest⟩
   · exact hx k st scs σ _ _ hcode.left hsc hxe
@@ -104,12 +111,14 @@ theorem sim_prop {m : Meta} {x : Node} {name : String} {nilsafe : Bool} {cx : Li
     rw [SM.lift_apply] at hrest
     obtain ⟨rfl, rfl⟩ := Prod.mk.inj hrest
     cases nilsafe
-    · exact (Runs.property hcode.right hk).to_ip (by ip_arith)
-    · exact (Runs.propertyNilSafe hcode.right hk).to_ip (by ip_arith)
+    · exact (Runs.property hcode.right hk (hbl.of hev0)).to_ip (by ip_arith)
+    · exact (Runs.propertyNilSafe hcode.right hk (hbl.of hev0)).to_ip (by ip_arith)
 
-theorem sim_index {m : Meta} {x i : Node} {cx ci : List LInstr} (hx : Sim c P ctx x cx) (hi : Sim c P ctx i ci) :
+theorem sim_index {m : Meta} {x i : Node} {cx ci : List LInstr} (hx : Sim c P ctx x cx) (hi : Sim c P ctx i ci)
+    (hbl : BlameOK c P (.index m x i)) :
     Sim c P ctx (.index m x i) (cx ++ ci ++ [li m.loc .index]) := by
   intro k st scs σ r σ' hcode hsc hev
+  have hev0 := hev
   rw [eval_index] at hev
   rcases SM.bind_cases hev with ⟨e, hxe, rfl⟩ | ⟨a, σ1, hxv, hrest⟩
   · exact hx k st scs σ _ _ hcode.left.left hsc hxe
@@ -119,17 +128,24 @@ theorem sim_index {m : Meta} {x i : Node} {cx ci : List LInstr} (hx : Sim c P ct
     · refine Reach.runs (hi _ _ scs σ1 _ _ hcode.left.right hsc hiv) ?_
       rw [SM.lift_apply] at hrest2
       obtain ⟨rfl, rfl⟩ := Prod.mk.inj hrest2
-      exact ((Runs.index (hcode.right.cast (by ip_arith))).to_ip (by ip_arith))
+      exact ((Runs.index (hcode.right.cast (by ip_arith)) (hbl.of hev0)).to_ip (by ip_arith))
 
-theorem sim_len {m : Meta} {a : Node} {ca : List LInstr} (ha : Sim c P ctx a ca) :
+theorem sim_len {m : Meta} {a : Node} {ca : List LInstr} (ha : Sim c P ctx a ca)
+    (hbl : BlameOK c P (.builtin m "len" [a])) :
     Sim c P ctx (.builtin m "len" [a]) (ca ++ [li m.loc .len, li m.loc .rot, li m.loc .pop]) := by
   intro k st scs σ r σ' hcode hsc hev
+  have hev0 := hev
   rw [eval_len] at hev
   rcases SM.bind_cases hev with ⟨e, hxe, rfl⟩ | ⟨v, σ1, hxv, hrest⟩
   · exact ha k st scs σ _ _ hcode.left hsc hxe
   · refine Reach.runs (ha k st scs σ _ _ hcode.left hsc hxv) ?_
     have hc := hcode.right
-    refine Runs.andThen (Runs.len hc) ?_ ?_
+    have hb : RBlame P m.loc (lengthV v) := by
+      intro e he
+      rw [SM.bind_apply, SM.lift_apply, he] at hrest
+      obtain ⟨rfl, rfl⟩ := Prod.mk.inj hrest
+      exact hbl _ _ _ _ hev0
+    refine Runs.andThen (Runs.len hc hb) ?_ ?_
     · intro lv hlv
       cases hl : lengthV v with
       | error e => rw [hl] at hlv; cases hlv
